@@ -96,6 +96,14 @@ Theorem C03_lr1_valid_is_textbook :
   forall i gamma it x, lr1_valid g i gamma it x <-> lr1_valid_tb g i gamma it x.
 Proof. exact lr1_valid_textbook. Qed.
 
+(* With the certificate the automaton is also the complete collection: every viable prefix gamma (LR(1)-valid
+   item with lookahead x) leads to a state, and x is in that state's table entry. *)
+Theorem C03_lalr_la_covers :
+  forall g a fuel, la_cert g a fuel = true ->
+  forall i gamma it x, lr1_valid g i gamma it x ->
+  exists q, reach a i gamma q /\ In x (la_get (lalr_la g a fuel) q it).
+Proof. exact lalr_la_covers. Qed.
+
 (* FIRST and nullable compute only derivable facts. *)
 Theorem C03_first_sound :
   forall g, (forall x, In x (nullable_set g) -> nullable_sym g x) /\
@@ -120,6 +128,10 @@ Proof. vm_compute. repeat split; try reflexivity. eexists. split; [right; right;
 Example C03_certificate_on_the_classic_grammar : ref_cert ex_g 200 = true.
 Proof. vm_compute. reflexivity. Qed.
 
+(* the certificate rejects a collection cut short by too little fuel *)
+Example C03_certificate_rejects_truncated_collection : ref_cert ex_g 2 = false /\ ref_cert ex_g 20 = true.
+Proof. vm_compute. split; reflexivity. Qed.
+
 Example C03_classic_grammar_la_is_LALR1 :
   let a := fst (build_automaton ex_g 200) in
   forall q it x, In x (la_get (lalr_la ex_g a 200) q it) <-> lalr1 ex_g a q it x.
@@ -134,3 +146,4 @@ Print Assumptions C03_first_sound.
 Print Assumptions C03_lr1_valid_contains_textbook.
 Print Assumptions C03_lr1_valid_is_textbook.
 Print Assumptions C03_build_loop_sound.
+Print Assumptions C03_lalr_la_covers.
